@@ -22,15 +22,15 @@ theorem getVarName_strictly_increasing (g : G) : g.num < (getVarName (getVarName
 whatever the file declares (see C11). -/
 theorem no_duplicate_imports (toks : List Tok) :
     (C11.lits (toks.foldl addImport [])).Nodup ∧
-    ∀ x ∈ C11.lits (toks.foldl addImport []), Gen.defaultImports.contains x = false :=
+    ∀ x ∈ C11.lits (toks.foldl addImport []), isOwnImport x = false :=
   C11.imports_nodup_and_not_default toks [] List.nodup_nil (by intro x hx; cases hx)
 
-/-- **Block structure** — a control-flow line written without its brace always opens a block
-(so that `if cond` is never printed bare), and a plain statement without nested lines never does. -/
+/-- **Block structure** — a control-flow line always opens a block, with or without its brace and
+also when nothing is nested under it (so that `if cond` is never printed bare and `if cond {` never left
+without the block an `else` can close), and a plain statement without nested lines never does. -/
 theorem control_line_opens_block (o : Tok) (kids : List Node)
-    (h : (Gen.openingStatements.any fun s => startsStmt (trimSpace o.lit) s) = true)
-    (hb : hasSuffix (trimSpace o.lit) [123] = false) : silentHasBlock o kids = true := by
-  simp [silentHasBlock, h, hb]
+    (h : (Gen.openingStatements.any fun s => startsStmt (trimSpace o.lit) s) = true) : silentHasBlock o kids = true := by
+  simp [silentHasBlock, h]
 
 theorem plain_statement_has_no_block (o : Tok)
     (h : (Gen.openingStatements.any fun s => startsStmt (trimSpace o.lit) s) = false) : silentHasBlock o [] = false := by
